@@ -66,6 +66,10 @@ def programs(op, side, cache, key, dest, target):
         "write": [{"op": "write" + suf, "cache": cache, "key": key, "data": g}],
         "write_with_algo": [{"op": ("write_sync_with_algo" if s else "write_with_algo"), "algo": "sha1", "cache": cache, "key": key, "data": g}],
         "write_hash": [{"op": "write_hash" + suf, "cache": cache, "data": g}],
+        # the bytes that are already stored (OLD), put once more
+        "write_same": [{"op": "write" + suf, "cache": cache, "key": key, "data": {"gen": [OLD["n"], OLD["tag"]]}}],
+        "write_hash_same": [{"op": "write_hash" + suf, "cache": cache, "data": {"gen": [OLD["n"], OLD["tag"]]}}],
+        "writer_same": [{"op": pre_w + "open", "cache": cache, "key": key, "opts": {}}, {"op": "w_write_all", "h": h, "data": {"gen": [OLD["n"], OLD["tag"]]}}, {"op": "w_commit", "h": h}],
         "writer": [{"op": pre_w + "open", "cache": cache, "key": key, "opts": {"size": NEW["n"], "metadata": {"k": key[:20]}}}, {"op": "w_write_all", "h": h, "data": g}, {"op": "w_commit", "h": h}],
         "writer_dropped": [{"op": pre_w + "open", "cache": cache, "key": key, "opts": {}}, {"op": "w_write_all", "h": h, "data": g}, {"op": "w_drop", "h": h}],
         "writer_create": [{"op": pre_w + "create", "cache": cache, "key": key}, {"op": "w_write_all", "h": h, "data": g}, {"op": "w_commit", "h": h}],
@@ -105,9 +109,9 @@ def programs(op, side, cache, key, dest, target):
     return table.get(op)
 
 
-KEYED = ["write", "write_with_algo", "writer", "writer_dropped", "writer_create", "read", "stream", "metadata", "index_find", "index_insert", "index_delete", "copy",
+KEYED = ["write_same", "writer_same", "write", "write_with_algo", "writer", "writer_dropped", "writer_create", "read", "stream", "metadata", "index_find", "index_insert", "index_delete", "copy",
          "copy_unchecked", "hard_link", "hard_link_unchecked", "reflink", "reflink_unchecked", "remove", "remove_fully", "link_to"]
-UNKEYED = ["write_hash", "read_hash", "stream_hash", "exists", "list", "index_ls", "copy_hash", "copy_hash_unchecked", "hard_link_hash", "hard_link_hash_unchecked",
+UNKEYED = ["write_hash_same", "write_hash", "read_hash", "stream_hash", "exists", "list", "index_ls", "copy_hash", "copy_hash_unchecked", "hard_link_hash", "hard_link_hash_unchecked",
            "reflink_hash", "reflink_hash_unchecked", "remove_hash", "clear", "link_to_hash"]
 EXTRACT = {"copy", "copy_unchecked", "copy_hash", "copy_hash_unchecked", "hard_link", "hard_link_unchecked", "hard_link_hash", "hard_link_hash_unchecked", "reflink",
            "reflink_unchecked", "reflink_hash", "reflink_hash_unchecked"}
@@ -171,7 +175,7 @@ def worker(ctx, job):
             if temp == "index-only":
                 # a cache that holds nothing but raw index entries (public index::insert)
                 srv.call({"op": "index_insert", "cache": real_cache, "key": key if key is not None else "only", "opts": {"integrity": sri(OLD), "time": "1", "size": 7}})
-            if temp in ("warm", "damaged-content", "truncated-content", "readonly-extracted"):
+            if temp in ("warm", "damaged-content", "truncated-content", "readonly-extracted", "extracted-and-edited"):
                 wr.do_write(srv, real_cache, side="s", entry="oneshot", key="bystander", n=3, tag=1)
                 wr.do_write(srv, real_cache, side="s", entry="hash", n=OLD["n"], tag=OLD["tag"])
                 if key is not None:
@@ -207,6 +211,16 @@ def worker(ctx, job):
                 if os.path.isfile(cp_):
                     os.link(cp_, ex_)
                     os.chmod(ex_, 0o444)
+            if temp == "extracted-and-edited":
+                # an earlier extraction by hard link that its owner has appended to since (the content file shares the inode)
+                cp_ = os.path.join(real_cache, ref.content_rel(sri(OLD)))
+                ex_ = os.path.join(outside, "extracted-and-edited")
+                if os.path.lexists(ex_):
+                    os.unlink(ex_)
+                if os.path.isfile(cp_):
+                    os.link(cp_, ex_)
+                    with open(ex_, "ab") as fh:
+                        fh.write(b" -- the owner's own edit")
             if temp == "link-to-readonly-target":
                 ro_ = os.path.join(outside, "read-only-target")
                 if not os.path.exists(ro_):
@@ -346,6 +360,8 @@ def main(tier, seed=0):
         for dmg in ("damaged-content", "truncated-content"):
             jobs.append({"flavour": flavour, "side": side, "temp": dmg, "rootform": "abs", "ops": ["read", "stream", "metadata", "copy", "copy_unchecked", "hard_link", "reflink"], "keys": keys[:2]})
             jobs.append({"flavour": flavour, "side": side, "temp": dmg, "rootform": "abs", "ops": ["read_hash", "stream_hash", "exists", "list", "copy_hash", "hard_link_hash", "reflink_hash"], "keys": []})
+        jobs.append({"flavour": flavour, "side": side, "temp": "extracted-and-edited", "rootform": "abs", "ops": ["write_same", "writer_same", "read", "copy", "remove_fully"], "keys": keys[:2]})
+        jobs.append({"flavour": flavour, "side": side, "temp": "extracted-and-edited", "rootform": "abs", "ops": ["write_hash_same", "read_hash", "remove_hash", "clear"], "keys": []})
         for st_ in ("readonly-extracted", "link-to-readonly-target"):
             jobs.append({"flavour": flavour, "side": side, "temp": st_, "rootform": "abs", "ops": ["remove", "remove_fully", "write", "read", "copy", "hard_link"], "keys": keys[:2]})
             jobs.append({"flavour": flavour, "side": side, "temp": st_, "rootform": "abs", "ops": ["remove_hash", "clear", "write_hash", "read_hash", "exists", "list"], "keys": []})
